@@ -115,6 +115,13 @@ def run_case(case) -> Outcome:
     kw = {"limit": limit}
     if exp is not None:
         kw["expiration"] = exp
+    if case.get("bare"):
+        # @cache without arguments: documented defaults limit=1, no expiration
+        limit, exp = 1, None
+
+    def deco(fn):
+        return cache(fn) if case.get("bare") else cache(**kw)(fn)
+
     if is_method:
         if is_async:
 
@@ -122,7 +129,7 @@ def run_case(case) -> Outcome:
                 def __init__(self, serial):
                     self.serial = serial
 
-                @cache(**kw)
+                @deco
                 async def f(self, x, y=None):
                     return impl(self.serial, x, y)
 
@@ -132,7 +139,7 @@ def run_case(case) -> Outcome:
                 def __init__(self, serial):
                     self.serial = serial
 
-                @cache(**kw)
+                @deco
                 def f(self, x, y=None):
                     return impl(self.serial, x, y)
 
@@ -141,13 +148,13 @@ def run_case(case) -> Outcome:
     else:
         if is_async:
 
-            @cache(**kw)
+            @deco
             async def f(x, y=None):
                 return impl(0, x, y)
 
         else:
 
-            @cache(**kw)
+            @deco
             def f(x, y=None):  # type: ignore[misc]
                 return impl(0, x, y)
 
@@ -317,6 +324,7 @@ def strategy(tier):
             "variant": variant,
             "limit": limit,
             "exp": exp,
+            "bare": draw(st.integers(0, 9)) == 0,
             "ops": draw(st.lists(st.one_of(*ops), min_size=4, max_size=max_len)),
         }
 
